@@ -14,7 +14,7 @@ import (
 // Now is time.Now on the model clock.
 func Now() time.Time {
 	if s := sched.Cur(); s != nil {
-		return s.Now()
+		return s.ReadClock()
 	}
 	return time.Now()
 }
